@@ -74,3 +74,22 @@ Theorem C14_single_interrupt_terminates_no_worker : forall c maxw o k1,
   terminated (snd (run_intr intr_params_src c maxw o k1 None)) = [].
 Proof. exact (single_interrupt_terminates_no_worker intr_params_src). Qed.
 Print Assumptions C14_single_interrupt_terminates_no_worker.
+
+(* ... and run_tasks waits for them: after a single interrupt KeyboardInterrupt leaves run_tasks only once every future the
+   runner had registered has been consumed — the workers that were executing have delivered their outcome (none was
+   terminated, above; each saves its own result before it reports), the queued ones were cancelled.  Nothing registered is
+   left behind, whatever the graph, worker count, oracle and interrupt tick. *)
+Require Import LT.Proofs.IntrDrain.
+Theorem C14_single_interrupt_waits_for_registered : forall c maxw o k1 w,
+  run_intr intr_params_src c maxw o k1 None = (IRaised KI, w) -> existsb registered (f2t w) = false.
+Proof. exact (single_interrupt_waits_for_registered intr_params_src). Qed.
+Print Assumptions C14_single_interrupt_waits_for_registered.
+
+(* non-vacuity: a run of the example graph (two workers) interrupted once at its 15th tick ends with KeyboardInterrupt
+   after two worker starts *)
+Require Import LT.Proofs.SchedExamples.
+Example single_interrupt_run_exists :
+  let P0 := {| ip := good_params; ip_gen := PopFirst; ip_drain_swallows := true; ip_stop_swallows := true; ip_stop_cancels := true |} in
+  let r := run_intr P0 ex_cfg 2 [[0]; [4]; [1]; [2]; [3]; []; []] (Some 14) None in
+  fst r = IRaised KI /\ nstarts (snd r) = 2.
+Proof. vm_compute. split; reflexivity. Qed.
